@@ -32,6 +32,17 @@ func ShardMain(name, tier string, shard, n int) int {
 	return 0
 }
 
+// shardDeadline is the moment a shard stops enumerating and reports exhaustive:false (a budget is never a failure).
+func shardDeadline(tier string) time.Time {
+	d := 4 * time.Minute
+	if tier == "thorough" {
+		d = 13 * time.Minute
+	}
+	return shardStart.Add(d)
+}
+
+var shardStart = time.Now()
+
 func shardCount() int {
 	n := runtime.NumCPU() - 2
 	if n < 1 {
